@@ -1,8 +1,9 @@
 /- Driver family `lz`: C08 C09 C10 C11 — LZ10 / LZ13.
 
 Case lines
-  `<id> c10 <period> <input-hex>`     LZ10CompressionFormat::compress   → `ok <hex> rt=ok`
-  `<id> c13 <period> <input-hex>`     LZ13CompressionFormat::compress   → `ok <hex> rt=ok alloc=ok`
+  `<id> c10|b10 <period> <input-hex>` LZ10CompressionFormat::compress   → `ok <hex> rt=ok`
+  `<id> c13|b13 <period> <input-hex>` LZ13CompressionFormat::compress   → `ok <hex> rt=ok alloc=ok`
+  (`c*`: judged against the C08/C09 clauses; `b*`: against the C10 size bounds)
   `<id> d10|d13|f10|f13 <stream-hex>` LZ10/LZ13/CompressionFormat::decompress → `ok <hex> x=ok` | `err Invalid x=ok` | `panic`
 `period` is a period the generator claims for the input (0 = none); the oracle re-checks it.
 -/
@@ -28,27 +29,29 @@ def periodicBound (H r L n p : Nat) : Nat :=
   let refs := ceilDiv (n - p) L + 1
   H + (p + 2) + r * refs + ceilDiv ((p + 2) + refs) 8
 
-/-- Spec oracle for a compress case, judged on the implementation's output line. -/
-def oracleCompress (is13 : Bool) (p : Nat) (x : BA) (impl : List String) : String :=
+/-- Strip the 4-byte `0x13` wrapper of an LZ13 output. -/
+def body? (is13 : Bool) (out : Bytes) : Option Bytes :=
+  if is13 then
+    match out with
+    | 0x13 :: _ :: _ :: _ :: s => some s
+    | _ => none
+  else some out
+
+/-- C08 / C09 oracle for a compress case, judged on the implementation's output line: wrapper,
+well-formed stream (independent parser), valid tokens, expansion = input, library round trip,
+allocation request (LZ13). -/
+def oracleCompress (is13 : Bool) (x : BA) (impl : List String) : String :=
   match impl with
   | _ :: "ok" :: outHex :: rest =>
     match bytesOfHex outHex with
     | none => "FAIL unreadable output"
     | some out =>
       let n := x.size
-      -- wrapper
-      let body? : Option Bytes :=
-        if is13 then
-          match out with
-          | 0x13 :: _ :: _ :: _ :: s => some s
-          | _ => none
-        else some out
-      match body? with
+      match body? is13 out with
       | none => "FAIL LZ13 output does not start with a 4-byte 0x13 wrapper"
       | some body =>
-        if is13 && n == 0 then
-          -- C09 only asks for "Ok or Err, no panic" on the empty input; C10 header term is 12 bytes
-          if out.length ≤ 12 then "ok empty" else "FAIL C10 empty input: more than 12 bytes"
+        if is13 && !(rest.contains "alloc=ok") then "FAIL C09 allocation request above 13 + n + n/8"
+        else if is13 && n == 0 then "ok empty"  -- C09 asks only for Ok/Err without panic on the empty input
         else if n ≥ 2 ^ 24 then "ok skip input of 16 MiB or more"
         else
         match Spec.Lz.parse body with
@@ -59,19 +62,29 @@ def oracleCompress (is13 : Bool) (p : Nat) (x : BA) (impl : List String) : Strin
           else if !(Spec.Lz.validB ext toks) then "FAIL invalid token (length/displacement range or reach)"
           else if !(baEq (Spec.Lz.expand toks) x) then "FAIL independent decoder: expansion differs from the input"
           else if !(rest.contains "rt=ok") then "FAIL library decompress(compress(x)) != x"
-          else if is13 && !(rest.contains "alloc=ok") then "FAIL C09 reserve request above 13 + n + n/8"
-          else
-            let H := if is13 then 8 else 4
-            if out.length > H + n + ceilDiv n 8 then
-              s!"FAIL C10 expansion bound: {out.length} > {H} + {n} + ceil({n}/8)"
-            else if p > 0 && isPeriodic x p && p ≤ 4096 then
-              let b := if is13 then periodicBound H 4 4096 n p else periodicBound H 2 18 n p
-              if out.length > b then s!"FAIL C10 periodic bound: period {p}, n {n}: {out.length} > {b}"
-              else s!"ok tokens={toks.length} periodic"
-            else s!"ok tokens={toks.length}"
+          else s!"ok tokens={toks.length}"
   | _ :: "panic" :: _ => "FAIL panic"
-  | _ :: "err" :: _ => "FAIL compress returned an error"
+  | _ :: "err" :: _ => if is13 && x.size ≥ 2 ^ 24 then "ok skip" else "FAIL compress returned an error"
   | _ => "FAIL unreadable implementation line"
+
+/-- C10 oracle: the two inequalities on the implementation's output. -/
+def oracleBounds (is13 : Bool) (p : Nat) (x : BA) (impl : List String) : String :=
+  match impl with
+  | _ :: "ok" :: outHex :: _ =>
+    match bytesOfHex outHex with
+    | none => "FAIL unreadable output"
+    | some out =>
+      let n := x.size
+      let H := if is13 then (if n == 0 then 12 else 8) else 4
+      if out.length > H + n + ceilDiv n 8 then
+        s!"FAIL C10 expansion bound: {out.length} > {H} + {n} + ceil({n}/8)"
+      else if p > 0 && p ≤ 4096 && isPeriodic x p then
+        let b := if is13 then periodicBound 8 4 4096 n p else periodicBound 4 2 18 n p
+        if out.length > b then s!"FAIL C10 periodic bound: period {p}, n {n}: {out.length} > {b}"
+        else "ok periodic"
+      else "ok"
+  | _ :: "panic" :: _ => "FAIL panic"
+  | _ => "FAIL compress did not return a stream"
 
 def modelCompress (is13 : Bool) (x : BA) : String :=
   if is13 then
@@ -143,12 +156,18 @@ def family : Family where
   init := ()
   step := fun _ c i =>
     match c with
-    | [_, "c10", p, x] =>
+    | [_, "c10", _, x] =>
       let x := (hexOrBad x).toArray
-      ((), modelCompress false x, oracleCompress false p.toNat! x i)
-    | [_, "c13", p, x] =>
+      ((), modelCompress false x, oracleCompress false x i)
+    | [_, "c13", _, x] =>
       let x := (hexOrBad x).toArray
-      ((), modelCompress true x, oracleCompress true p.toNat! x i)
+      ((), modelCompress true x, oracleCompress true x i)
+    | [_, "b10", p, x] =>
+      let x := (hexOrBad x).toArray
+      ((), modelCompress false x, oracleBounds false p.toNat! x i)
+    | [_, "b13", p, x] =>
+      let x := (hexOrBad x).toArray
+      ((), modelCompress true x, oracleBounds true p.toNat! x i)
     | [_, kind, s] =>
       if kind == "d10" || kind == "d13" || kind == "f10" || kind == "f13" then
         let s := hexOrBad s
